@@ -408,18 +408,29 @@ impl LexiconReader {
             x => (x, self.entries.len()),
         };
         for e in self.entries.iter() {
-            if e.left_id >= self.max_left {
+            // The connection cost is looked up as (right_id of the previous word, left_id of this word),
+            // the first index is limited by the left size of the matrix and the second one by the right size.
+            if e.left_id >= self.max_right {
                 return ctx.err(BuildFailure::InvalidFieldSize {
                     actual: e.left_id as _,
-                    expected: self.max_left as _,
+                    expected: self.max_right as _,
                     field: "left_id",
                 });
             }
 
-            if e.right_id >= self.max_right {
+            if e.right_id >= self.max_left {
                 return ctx.err(BuildFailure::InvalidFieldSize {
                     actual: e.right_id as _,
-                    expected: self.max_right as _,
+                    expected: self.max_left as _,
+                    field: "right_id",
+                });
+            }
+
+            // only entries with negative left_id are not indexed, such entries do not connect to anything
+            if e.should_index() && e.right_id < 0 {
+                return ctx.err(BuildFailure::InvalidFieldSize {
+                    actual: e.right_id as u16 as _,
+                    expected: self.max_left as _,
                     field: "right_id",
                 });
             }
